@@ -151,6 +151,33 @@ class Run(object):
                 out = ('ret', sp.close(force=False))
             elif op == 'sendeof':
                 out = ('ret', sp.sendeof())
+            elif op == 'send_closing_log':
+                # re-entrancy: the object is closed while send() is on its way (a logfile_send hook that ends the
+                # session, a signal handler during delaybeforesend); the descriptor number is taken over at once
+                run = self
+
+                class ClosingLog(object):
+                    done = False
+
+                    def write(self_, data):
+                        if not self_.done:
+                            self_.done = True
+                            try:
+                                sp.close()
+                            except Exception:
+                                pass
+                            run.note_fd()
+                            if not run.fd_open:
+                                run.place_decoy()
+
+                    def flush(self_):
+                        pass
+                saved_log = sp.logfile_send
+                sp.logfile_send = ClosingLog()
+                try:
+                    out = ('ret', sp.send(b'x'))
+                finally:
+                    sp.logfile_send = saved_log
             elif op == 'send':
                 out = ('ret', sp.send(b'x'))
             elif op == 'sendcontrol':
@@ -262,7 +289,7 @@ class Run(object):
         if self.decoy is not None:
             if not self.decoy_intact():
                 self.fail('touched-foreign-fd', '%s touched the file that now owns descriptor %d' % (op, self.fd0))
-            if op in ('send', 'sendcontrol', 'sendeof', 'rnb', 'expect_eof', 'read_until_eof') and out[0] not in ('exc',):
+            if op in ('send', 'send_closing_log', 'sendcontrol', 'sendeof', 'rnb', 'expect_eof', 'read_until_eof') and out[0] not in ('exc',):
                 if not (op in ('expect_eof', 'read_until_eof', 'rnb') and out[0] in ('eof',)) and \
                         not (op == 'expect_eof' and out[0] == 'ret' and out[1] == 0 and sp.flag_eof and False):
                     self.fail('io-after-close', '%s after the descriptor was released returned %r instead of failing'
